@@ -123,6 +123,7 @@ def run(ctx, rep):
     rep.rule('D1.fixed', 'for every column in conditions the output column is np.full(num_rows, conditions[column])')
     rep.rule('D2.align', 'positional pairings in the conditional path join vectors and labels of the same order')
     rep.rule('D3.schur', 'mu_bar = S12 inv(S22) z and sigma_bar = S11 - S12 inv(S22) S21 with S_ij = correlation.loc[c_i, c_j], c_2 = conditions.index, c_1 = the rest')
+    rep.rule('D3.draw', 'the conditional draw is kind-correct (a multivariate normal with the conditional mean and covariance; scales are standard deviations)')
     rep.rule('D4.container', 'a parameter documented as array / Series / DataFrame valued is never used in a boolean context')
     rep.rule('D5.nomutate', "sample() does not modify the caller's conditions")
     fn = gauss.gm_method(ctx, 'sample')
@@ -178,6 +179,9 @@ def run(ctx, rep):
               and isinstance(stmt_of(calls[0]).targets[0], ast.Tuple) and len(stmt_of(calls[0]).targets[0].elts) == 3,
               'the draw uses (means, covariance, columns) of the conditional distribution',
               'the conditional parameters are not unpacked into the draw', construct='use of the conditional parameters')
+    nsp = gauss.report_space(ctx, rep, 'D3.draw', ['_get_normal_samples'])
+    if not nsp:
+        rep.ok('D3.draw', ns, ns.node.name, 'no kind mismatch on any path of the draw', construct='def _get_normal_samples')
     # D4 package-wide
     n = 0
     for f in prog.functions.values():
